@@ -137,11 +137,23 @@ _add("C09", _glob("own_all_histories"))
 # Theorems about facts REGENERATED from the source on every run (module to build, theorem names), per property.
 FACT_OBLIGATIONS = {
     "C02": [("Sessions.FactsBracketStart", ["FactsBrackets.start_looks_up_only_24"])],
+    "C03": [("Sessions.FactsCondsStale", ["FactsConds.start_stale"]),
+            ("Sessions.FactsCondsExpired", ["FactsConds.expired_eq_model"])],
     "C04": [("Sessions.FactsBracketStart", ["FactsBrackets.start_is_critical_section"]),
-            ("Sessions.FactsBracketLogin", ["FactsBrackets.login_is_critical_section"])],
+            ("Sessions.FactsBracketLogin", ["FactsBrackets.login_is_critical_section"]),
+            ("Sessions.FactsCondsRotate", ["FactsConds.start_rotate_backstop", "FactsConds.start_reference_tests"])],
+    "C05": [("Sessions.FactsCondsRotate", ["FactsConds.start_rotate_backstop", "FactsConds.start_grace_only_backstop",
+                                           "FactsConds.no_sum_of_durations", "FactsConds.start_reference_tests",
+                                           "FactsConds.regenerate_durations"]),
+            ("Sessions.FactsCondsExpired", ["FactsConds.expired_eq_model"])],
+    "C06": [("Sessions.FactsCondsAnomaly", ["FactsConds.start_ua", "FactsConds.ua_block_eq_uaOK", "FactsConds.start_valid_only_cleared",
+                                            "FactsConds.start_ip_guards", "FactsConds.start_ip_body", "FactsConds.goIP_eq_ipOK",
+                                            "FactsConds.matchIP_length"])],
     "C07": [("Sessions.FactsPinsDelete", ["FactsPins.cache_delete_source_matches_model"])],
     "C11": [("Sessions.FactsErrors", ["FactsErrors.errors_propagate", "FactsErrors.error_sites_cover"])],
-    "C12": [("Sessions.FactsPinsCache", ["FactsPins.cache_source_matches_model"])],
+    "C12": [("Sessions.FactsPinsCache", ["FactsPins.cache_source_matches_model"]),
+            ("Sessions.FactsCondsCache", ["FactsConds.compact_idle", "FactsConds.compact_size_tests", "FactsConds.compact_victim",
+                                          "FactsConds.get_set_cache_switch"])],
     "C13": [("Sessions.FactsPinsMutex", ["FactsPins.mutex_source_matches_model"]),
             ("Sessions.FactsBracketStart", ["FactsBrackets.start_is_critical_section"])],
     "C14": [("Sessions.FactsPinsMutex", ["FactsPins.mutex_source_matches_model"])],
